@@ -126,6 +126,8 @@ def public_unit():
         Harness("sign_is_spec_3_2_1", ["C03", "C01"], complete=False, bound="|m|=3,|f|=2,|a|=1; contents symbolic; every (r,s) in [1,n-1]^2", functions=fl, timeout=1800),
         Harness("verify_accepts_spec_0_0_0", ["C03", "C01"], complete=False, bound="|m|=0,|f|=0,|a|=0", functions=fl + kd, timeout=1800),
         Harness("verify_accepts_spec_3_2_1", ["C03", "C01"], complete=False, bound="|m|=3,|f|=2,|a|=1", functions=fl + kd, timeout=1800),
+        Harness("verify_accepts_spec_twin_0_0_0", ["C03", "C01"], complete=False, bound="|m|=0,|f|=0,|a|=0; the specification token with s replaced by n - s", functions=fl + kd, timeout=1800),
+        Harness("verify_accepts_spec_twin_3_2_1", ["C03", "C01"], complete=False, bound="|m|=3,|f|=2,|a|=1; the specification token with s replaced by n - s", functions=fl + kd, timeout=1800),
         Harness("roundtrip_own_nonce_0_0_0", ["C01"], complete=False, bound="|m|=0,|f|=0,|a|=0; every (r,s) in [1,n-1]^2", functions=fl, timeout=1800),
         Harness("roundtrip_own_nonce_1_1_1", ["C01"], complete=False, bound="|m|=1,|f|=1,|a|=1; every (r,s) in [1,n-1]^2", functions=fl, timeout=1800),
         Harness("verify_rejects_tamper_0_0_0", ["C02", "C12"], complete=False, bound="|m|=0,|f|=0,|a|=0; flip position and bit symbolic", functions=fl + kd, timeout=1800),
@@ -168,18 +170,18 @@ def pie_unit():
 def pbkw_unit():
     F = f"{SRC}/core/pw_wrap.rs"
     fn = [f"{F}::{f}" for f in ("pw_wrap_key", "pw_unwrap_key", "get_params", "wrap_keys", "kdf", "auth")]
-    hs = [Harness("wrap_is_spec_32_default", ["C07", "C05", "C16"], complete=False, bound="local key, default parameters (100000 iterations), 2-byte password", functions=fn),
-          Harness("wrap_is_spec_48_custom", ["C07", "C05", "C16"], complete=False, bound="secret key, 1000 iterations, 1-byte password", functions=fn)]
+    hs = [Harness("wrap_is_spec_32_default", ["C07", "C05", "C16"], complete=False, bound="local key, default parameters (100000 iterations), 2-byte password", functions=fn, timeout=2400),
+          Harness("wrap_is_spec_48_custom", ["C07", "C05", "C16"], complete=False, bound="secret key, 1000 iterations, 1-byte password", functions=fn, timeout=2400)]
     for k in (32, 48):
         b = f"wrapped key length {k}; contents, salt, nonce symbolic"
-        hs += [Harness(f"unwrap_accepts_spec_{k}", ["C07", "C05"], complete=False, bound=b, functions=fn),
-               Harness(f"roundtrip_{k}", ["C05"], complete=False, bound=b, functions=fn),
-               Harness(f"unwrap_rejects_tamper_{k}", ["C06"], complete=False, bound=b + "; flip position/bit symbolic (blob, password)", functions=fn, timeout=1800),
+        hs += [Harness(f"unwrap_accepts_spec_{k}", ["C07", "C05"], complete=False, bound=b, functions=fn, timeout=2400),
+               Harness(f"roundtrip_{k}", ["C05"], complete=False, bound=b, functions=fn, timeout=2400),
+               Harness(f"unwrap_rejects_tamper_{k}", ["C06"], complete=False, bound=b + "; flip position/bit symbolic (blob, password)", functions=fn, timeout=2400),
                Harness(f"unwrap_rejects_relabel_{k}", ["C06", "C10"], complete=False, bound=b + "; header relabelled local<->secret", functions=fn, timeout=2400)]
     for n in (0, 51, 52, 99, 100, 133):
         hs.append(Harness(f"unwrap_short_{n}", ["C04", "C06"], complete=False, bound=f"blob length {n}, all parameter blocks with a non-zero iteration count", functions=fn))
     hs += [Harness("unwrap_zero_iterations_h", ["C04"], complete=False, bound="132-byte blob, iteration count 0, everything else symbolic", functions=fn),
-           Harness("wrap_fail_closed_h", ["C16"], functions=fn), Harness("canary_inputs_h", ["C05", "C06", "C07"], expect="fail")]
+           Harness("wrap_fail_closed_h", ["C16"], functions=fn, timeout=2400), Harness("canary_inputs_h", ["C05", "C06", "C07"], expect="fail", timeout=2400)]
     return core_unit("awslc_pbkw", F, "units/awslc/pbkw.rs", "core::pw_wrap::verif", hs, A_RS[:3])
 
 
